@@ -69,11 +69,12 @@
          two characters or more, the token in front of it otherwise ([C16_token_lengths]: which tokens have one);
          per kind: behind `:=` null [C16_directly_behind_assign]; behind the `(` of a call / `if` / `while` null
          [C16_directly_behind_paren]; behind the `;` of an assignment or call the variables only
-         [C16_directly_behind_statement_semic]; behind the closing brace of a procedure the statement proposals with its
+         [C16_directly_behind_statement_semic]; behind the `{` / `}` of a block the statement proposals
+         [C16_directly_behind_block_brace]; behind the closing brace of a procedure the statement proposals with its
          locals, not the declaration starters [C16_directly_behind_procedure_end]; behind a token of the header / the variable
          declarations the answer of the kind of `token_before` alone - null behind `:`, `{`, `;`, an identifier
-         [C16_directly_behind_declaration_token]; in a type declaration [C16_directly_behind_type_decl_token].  (Not uniform for `;`, `}` and identifiers inside bodies: an empty statement,
-         the `}` of a block and an identifier are decided by their context - [C16_body_positions_classified].)
+         [C16_directly_behind_declaration_token]; in a type declaration [C16_directly_behind_type_decl_token].  (Not uniform for the `;` of an empty statement and for identifiers
+         inside bodies: they are decided by their context - [C16_body_positions_classified].)
      (2) C16_comment_before_cursor  tprev a comment, the cursor behind it up to the next token (the start of the next line
          included): behind a leading comment of a statement the statement proposals if the statement is `;` or a block, NULL
          in front of an assignment, call, `if`, `while`; [C16_comment_before_cursor_declaration]: null in the header, the
@@ -787,6 +788,23 @@ Theorem C16_directly_behind_statement_semic : forall (p : aprog) (G : gtable) (t
         propose d line col = ROk (Some (search_variables (pe_local pe))).
 Proof. exact propose_behind_stmt_semic. Qed.
 Print Assumptions C16_directly_behind_statement_semic.
+
+(* directly behind the `{` (token |ca| of the block) or the `}` (its last token) of a block statement: the statement
+   proposals - what C16 prescribes there - with the `else` starters in front in some cases ([else_or_not]) *)
+Theorem C16_directly_behind_block_brace : forall (p : aprog) (G : gtable) (t : text) (toks : list token) (d : doc),
+  prog_ok p = true -> well_typed (expected p) G ->
+  lex t = Some toks -> map tk toks = flatten p ++ [Eof] -> new_doc_res t = ODone d ->
+  forall l1 c1 c2 x c3 ps c4 c5 vs b1 s b2 c6 l2 g ca b cb,
+    a_decls p = l1 ++ DProc c1 c2 x c3 ps c4 c5 vs (sapp b1 (SCons s b2)) c6 :: l2 ->
+    snest s g (SBlk ca b cb) ->
+    forall m tprev line col,
+      m = length ca \/ m = length (fl_stmt (SBlk ca b cb)) - 1 ->
+      nth_error toks (stmt_index l1 c1 c2 x c3 ps c4 c5 vs b1 g + m) = Some tprev ->
+      get_insertion_index line col t = te tprev ->
+      exists pe pre, lookup G x = Some (GProcE pe) /\ map fst (pe_local pe) = aparams_names ps ++ map v_x vs /\
+        else_or_not pre /\ propose d line col = ROk (Some (pre ++ new_stmt (Some (pe_local pe)) G)).
+Proof. exact propose_behind_block_brace. Qed.
+Print Assumptions C16_directly_behind_block_brace.
 
 (* directly behind the closing brace of a procedure whose body holds a statement other than `;`: still inside the
    procedure - the statement proposals with ITS variables, not the declaration starters *)
